@@ -67,4 +67,25 @@ PROPS = {
         "trusted_base": STREAMS_TB + ["time.Parse/RFC 3339, float64->int conversion and regexp are re-implemented in Lean (AV/Streams/Literal.lean) and compared each run, not verified"],
         "assumptions": ["element acceptance by nested types needs only the `type` member (nested property deserializers never fail); validated by the exhaustive (property, kind) run"],
     },
+    "C09": {
+        "level": "proof",
+        "lean_modules": ["AV.Props.C09"],
+        "support_modules": ["AV.Core.Prog", "AV.Spec.Monitors", "AV.Lemmas.LockRules", "AV.Lemmas.LockOps", "AV.Lemmas.LockProofs",
+                            "AV.Pub.Val", "AV.Pub.Calls", "AV.Pub.Util", "AV.Pub.SideEffect", "AV.Pub.FedCallbacks", "AV.Pub.SocialCallbacks", "AV.Pub.BaseActor"],
+        "theorems": [
+            "AV.Props.C09.clean_of_ok", "AV.Props.C09.postOutbox", "AV.Props.C09.send", "AV.Props.C09.getInbox", "AV.Props.C09.getOutbox",
+            "AV.Props.C09.handler", "AV.Props.C09.postInbox_sideEffects", "AV.Props.C09.postInbox_partial", "AV.Props.C09.inboxForwarding_partial",
+            "AV.Props.C09.inboxForwarding_full_fails", "AV.Props.C09.not_full",
+        ],
+        "translator_scope": [r"gen_lean", r"T2 failed"],
+        "runners": [{"args": ["pub-C09", "400", "14", "inbox,outbox,send,get"], "timeout": 1500}],
+        "exhaustive": {"quick": False, "thorough": False},
+        "rule": "generated scenarios over every default side-effect path of both protocols (15 inbox activity types, 14 outbox value kinds via POST and Send, GET inbox/outbox/handler) with random addressing, ownership, callback configurations; "
+                "for each scenario the fault-free run and runs with one fallible call failing (quick: up to 14 fault positions per scenario spread over the run, thorough: every position); "
+                "every recorded trace is replayed call-for-call against the Lean model and checked by the lock monitor; non-trivial = the request takes at least one lock; distinct by scenario hash",
+        "trusted_base": ["hand transcription of pub into AV/Pub/*.lean, tied to the code by call-for-call trace replay on every run",
+                         "Go fakes (harness/fake.go) snapshot values at call time; pointer aliasing between application and library is outside the model"],
+        "assumptions": ["the application's Lock/Unlock/Database answers are arbitrary (quantified over all environments in the theorems)",
+                        "panicking runs are excluded from the 'nothing held at return' clause (crashes are C11's subject)"],
+    },
 }
